@@ -33,6 +33,7 @@ def r11_1(prog: Program, rep: Report):
     found = {"qualifier": False, "alias": False, "alias-string": False, "newtype": False}
     fix = {"qualifier": True, "alias": True, "newtype": True}
     exits_ok = True
+    string_exits_bad: list[str] = []
     for p in ps:
         gs = p.guards()
         in_loop = any(e[0] == "while" and e[2] == 1 for e in p.events)
@@ -55,6 +56,8 @@ def r11_1(prog: Program, rep: Report):
                 r = p.exit[1] if p.exit[0] == "return" else None
                 if r is not None and T.is_call_to(r, "typelib.py.refs.forwardref") and r[2][:1] == (val,) and dict(r[3]).get("module") == ("attr", t0, "__module__"):
                     found[kind] = True
+                elif r is not None:
+                    string_exits_bad.append(T.show(r)[:80])
                 continue
             kind = "alias"
             if cur_t == val:
@@ -98,6 +101,7 @@ def r11_1(prog: Program, rep: Report):
         rep.check(ok, "R11.1", q, f.loc, f"unwrap peels {labels[k]}", f"unwrap has no branch that peels {labels[k]}: such annotations are dispatched as opaque objects", detail=k)
     for k, ok in fix.items():
         rep.check(ok, "R11.1", q, f.loc, f"after peeling {k} the loop is re-entered (chains peel to a fixpoint)", f"after peeling {k} unwrap returns at once: a chain such as NewType of NewType / Final[alias] is only peeled one level", detail=f"{k}-fixpoint")
+    rep.check(not string_exits_bad, "R11.1", q, f.loc, "a string-valued alias always unwraps to the forward reference in the alias's module", f"a string-valued alias can unwrap to {string_exits_bad[:1]} instead of the forward reference naming its value: the context key under which the graph registered it is no longer the one a lookup asks for", detail="alias-string-exit")
     rep.check(exits_ok, "R11.1", q, f.loc, "the non-peeling exit returns the current annotation", "an exit returns something other than the current annotation", detail="exit")
     # _UNWRAPPABLE and should_unwrap
     uw = P.module_term(prog, prog.module(C.INSP), "_UNWRAPPABLE")
@@ -268,19 +272,43 @@ def r11_6(prog: Program, rep: Report):
                         ok_root = True
                     if ty is not None and ty[0] != "param" and un == ("call", ("ref", f"{C.INSP}.unwrap"), (ty,), ()):
                         ok_child = True
+    # the revisit test must see through wrappers: a member is "already visited" when the annotation *or* its unwrapped
+    # form was recorded (a NewType / alias of a class under construction is that class)
+    seen_child = seen_unwrapped = False
+    cut_found = False
+    for p in ps:
+        if not any(c09._is_typenode(x) and c09.node_args(x).get("cyclic") == ("const", True) for tm in p.all_terms() for x in T.walk(tm)):
+            continue
+        child = c09.child_of(p)
+        if child is None:
+            continue
+        cut_found = True
+        for g, pol in p.guards():
+            if not pol:
+                continue
+            for x in T.walk(g):
+                if x[0] == "cmp" and x[1] == "in" and x[3][0] in ("set", "binop", "call") or (x[0] == "cmp" and x[1] == "in" and T.contains(x[3], lambda y: y[0] == "set")):
+                    if x[2] == child:
+                        seen_child = True
+                    if x[2] == ("call", ("ref", f"{C.INSP}.unwrap"), (child,), ()):
+                        seen_unwrapped = True
+    if not cut_found:
+        rep.undecided("R11.6", f.qualname, f.loc, "cut branch not found", detail="revisit-through-wrappers")
+    else:
+        rep.check(seen_child and seen_unwrapped, "R11.6", f.qualname, f.loc, "a member counts as visited when the annotation or its unwrapped form was recorded", "the revisit test does not look at both the member annotation and its unwrapped form: a NewType / alias of a class under construction is not recognised as that class, the cycle is cut one level further out", detail="revisit-through-wrappers")
     rep.check(ok_root, "R11.6", f.qualname, f.loc, "the root node carries (t, unwrap(t))", "the root node does not carry unwrap(t)", detail="root")
     rep.check(ok_child, "R11.6", f.qualname, f.loc, "child nodes carry (child, unwrap(child))", "child nodes do not carry unwrap(child)", detail="child")
 
 
 def run(prog: Program, rep: Report, tier: str):
-    rep.rule("R11.1", "unwrap peel-set coverage, fixpoint, exits", floor=12)
+    rep.rule("R11.1", "unwrap peel-set coverage, fixpoint, exits", floor=13)
     rep.rule("R11.2", "dispatch on the unwrapped node (shared with R05.4)", floor=4)
     rep.rule("R11.3", "context double keying (shared with R05.1)", floor=4)
     rep.rule("R11.4", "context fallback through unwrap / forward reference (C16 rules)", floor=5)
     rep.rule("R11.5", "memoised reference resolvers are pure", floor=2)
     rep.rule("R11.8", "refs.evaluate / inspection.args / get_type_hints contracts", floor=8)
     rep.rule("R11.7", "refs.forwardref names a type by its own qualified name and module; defaults and dotted-string rule", floor=5)
-    rep.rule("R11.6", "graph nodes carry (annotation, unwrapped); reference roots evaluated (shared with R09.4)", floor=4)
+    rep.rule("R11.6", "graph nodes carry (annotation, unwrapped); revisit test sees through wrappers; reference roots evaluated (shared with R09.4)", floor=5)
     r11_1(prog, rep)
     sub = Report("C11", tier)
     for r in ("R05.1", "R05.2", "R05.3", "R05.4"):
